@@ -32,7 +32,7 @@ var c12Ops = []string{"insert", "insert", "update", "delete", "delete", "deletet
 func genC12(t *rapid.T, tier string) C12Case {
 	c := C12Case{Cfg: core.GenConfig(t, tier, core.GenOpts{
 		Caches: []string{"none"}, Vals: []string{core.VInt, core.VBytes},
-		Keys: []string{core.KLK, core.KLK, core.KLK, core.KInt, core.KString, core.KStruct, core.KStruct, core.KUint64, core.KBytes},
+		Keys:       []string{core.KLK, core.KLK, core.KLK, core.KInt, core.KString, core.KStruct, core.KStruct, core.KUint64, core.KBytes},
 		Marshalers: []string{"json"},
 	})}
 	pool := len(c.Cfg.Pool())
@@ -70,10 +70,10 @@ func (f *faultCounter) hit() bool {
 }
 
 type c12Env struct {
-	w                 *core.World
-	t, other          *core.Tree
-	load, cmp, marsh  *faultCounter
-	armed             bool
+	w                *core.World
+	t, other         *core.Tree
+	load, cmp, marsh *faultCounter
+	armed            bool
 	// cur is the cursor of a forward/backward case: positioned once without faults; the
 	// faulted step and its retry are the same call on this same cursor
 	cur *mast.Cursor
